@@ -443,7 +443,7 @@ structure ClauseExpl where
   bindings : Bindings := []
   facts : List (String × Tuple × Src) := []
   blocker : Option Blocker := none
-  deriving Repr, Inhabited
+  deriving Repr, DecidableEq, Inhabited
 
 /-- the body trace of one clause (why_not.rs:103-349): greedy, first match, no backtracking. -/
 def traceBody (ctx : Ctx) : List Lit → Nat → Bindings → List (String × Tuple × Src) →
